@@ -7,9 +7,8 @@
    The machine side (Spec/Probe.v) is written from the SC&MP / SARK documentation with every constant
    spelled out.
 
-   Not proved here (carried by the correspondence run and the independent oracle on every run): the
-   parsing of the two sver encodings, and the chunking / retransmission of the reads themselves (properties
-   C07 and C06). *)
+   Outside these theorems (other properties): the chunking / retransmission of the reads themselves
+   (C07, C06).  Non-ASCII software names are outside the model (stated hypothesis `ascii_text`). *)
 From Coq Require Import ZArith String List Bool.
 Require Import Rig.Generated.GenProbe Rig.Model.Base Rig.Model.Probe Rig.Spec.Probe
                Rig.Proofs.Probe Rig.Proofs.ProbeMachine.
@@ -118,6 +117,13 @@ Theorem C14_iobuf_chain :
     iobuf_walk fuel rd size a = Ok (chain_text blocks).
 Proof. exact iobuf_chain. Qed.
 
+Theorem C14_iobuf_bytes_chain :
+  forall rd p size a blocks fuel,
+    read_sv_int rd sv_iobuf_size = Ok size -> read_vcpu_int rd "iobuf" p = Ok a ->
+    chain_at rd size a blocks -> (length blocks < fuel)%nat ->
+    get_iobuf_bytes fuel rd p = Ok (chain_text blocks).
+Proof. exact iobuf_bytes_chain. Qed.
+
 (* ... and the acyclicity hypothesis is necessary: on a block that points to itself the loop never ends. *)
 Theorem C14_iobuf_cycle_diverges :
   forall rd size a b,
@@ -152,7 +158,34 @@ Theorem C14_vcpu_base_read :
     rd (SV_BASE + SV_VCPU_BASE) 4 = le_encode 4 base -> read_sv_int rd sv_vcpu_base = Ok base.
 Proof. exact read_vcpu_base_ok. Qed.
 
+(* Software version, legacy encoding (arg2 >> 16 = 100 * major + minor) and semantic-version encoding
+   (arg2 >> 16 = 0xffff, "major.minor.patch" and labels after the name's NUL): position, cpu numbers, buffer
+   size, build date, name, the three numbers and the labels come back as sent. *)
+Theorem C14_sver_legacy_roundtrip :
+  forall x y pcpu vcpu major minor buf date name,
+    sver_header_valid x y pcpu vcpu buf -> 0 <= major -> 0 <= minor < 100 -> 100 * major + minor < 65535 ->
+    ascii_text name ->
+    decode_sver (encode_sver_legacy x y pcpu vcpu major minor buf date name) =
+    Ok (mkCO (x, y) pcpu vcpu (major, minor, 0) buf date name []).
+Proof. exact sver_legacy_roundtrip. Qed.
+
+Theorem C14_sver_semver_roundtrip :
+  forall x y pcpu vcpu buf date name d1 d2 d3 labels,
+    sver_header_valid x y pcpu vcpu buf -> ascii_text name -> digits d1 -> digits d2 -> digits d3 ->
+    labels_ok labels ->
+    decode_sver (encode_sver_semver x y pcpu vcpu buf date name d1 d2 d3 labels) =
+    Ok (mkCO (x, y) pcpu vcpu (dec_value d1, dec_value d2, dec_value d3) buf date name labels).
+Proof. exact sver_semver_roundtrip. Qed.
+
 (* Non-vacuity. *)
+Example C14_sver_semver_satisfiable :
+  sver_header_valid 3 4 17 0 256 /\ ascii_text (chars "SC&MP/SpiNNaker") /\ digits (chars "2") /\ digits (chars "10") /\
+  digits (chars "0") /\ labels_ok (chars "-dev") /\
+  option_map flat_core_info (okopt (decode_sver (encode_sver_semver 3 4 17 0 256 1459253424 (chars "SC&MP/SpiNNaker")
+                                                                    (chars "2") (chars "10") (chars "0") (chars "-dev"))))
+  = Some [[3; 4; 17; 0; 2; 10; 0; 256; 1459253424]; chars "SC&MP/SpiNNaker"; chars "-dev"].
+Proof. exact ex_sver_semver. Qed.
+
 Example C14_status_block_satisfiable : status_block_valid ex_block.
 Proof. exact ex_block_valid. Qed.
 
